@@ -11,9 +11,9 @@ import ast
 
 from ..model import src
 from ..report import Report, key_of
-from ..terms import pretty
+from ..terms import assume, dag_nodes, pretty
 from ..types import Ctx
-from .common import TRUSTED_BASE, cfg_nodes_for, where
+from .common import TRUSTED_BASE, bound_args, cfg_nodes_for, inl, where
 
 
 def _const_offset(expr, var):
@@ -133,36 +133,43 @@ def run(A, R: Report, thorough: bool):
 
     # ---- R16.2
     R.rule('R16.2', 'the key is json.dumps(<binding minus ignored names>, sort_keys=True)', floor=1)
-    dumps = [n for n in A.typer.own_nodes(fdec) if isinstance(n, ast.Call) and src(n.func).endswith('dumps')]
+    dumps = [n for n in inl(A, fdec) if isinstance(n, ast.Call) and src(n.func).endswith('dumps')]
     if not dumps:
         R.undecided('R16.2', 'cached.decorated', 'key serialisation not recognised', where=where(fdec))
+    recv16 = ('inst', A.cls('cached'))
+    at = A.sym.terms_at(fdec, recv16, [d.args[0] for d in dumps if d.args])
     for d in dumps:
         sk = any(kw.arg == 'sort_keys' and isinstance(kw.value, ast.Constant) and kw.value.value is True for kw in d.keywords)
-        arg = d.args[0] if d.args else None
-        from .common import subst_single_assign
-        a2 = subst_single_assign(A, fdec, arg) if arg is not None else None
-        filt = isinstance(a2, ast.DictComp) and 'ignore_params' in src(a2) and src(a2.generators[0].iter).endswith('.items()') and len(a2.generators[0].ifs) == 1 and 'not in' in src(a2.generators[0].ifs[0]) \
-            and src(a2.key) == src(a2.generators[0].target.elts[0]) and src(a2.value) == src(a2.generators[0].target.elts[1])
+        ts = at.get(id(d.args[0]), []) if d.args else []
+        ign = ('attr', ('self',), 'ignore_params')
+
+        def is_filter(t):
+            # {k: v for k, v in <binding>.items() if k not in self.ignore_params}
+            if not (t[0] == 'mapdict' and len(t[1]) == 2 and t[2] == t[1][0] and t[3] == t[1][1] and t[4][0] == 'items'):
+                return False
+            g = t[5]
+            return g is not None and (g == ('cmp', 'NotIn', t[1][0], ign) or g == ('not', ('cmp', 'In', t[1][0], ign)))
+
+        filt = bool(ts) and all(is_filter(t) for t in ts)
         R.check(sk and filt, 'R16.2', f'cached.decorated: `{src(d)[:50]}`', key_of('key', sk, filt), 'sorted keys, ignored names removed',
                 ('the key is serialised without sort_keys=True: mappings with equal content but different insertion order (also nested ones) give different keys' if not sk else
-                 'the serialised dict is not exactly the binding minus the ignored names'), where=where(fdec, d))
+                 'the serialised dict is not exactly the binding minus the ignored names'), witness=[pretty(t)[:200] for t in ts[:2]], where=where(fdec, d))
 
     # ---- R16.3
     R.rule('R16.3', 'with the object\'s own cache the sub-cache is named <method name>[.<version>]', floor=1)
-    subs = [n for n in A.typer.own_nodes(fdec) if isinstance(n, ast.Call) and isinstance(n.func, ast.Attribute) and n.func.attr == 'subcache']
+    subs = [n for n in inl(A, fdec) if isinstance(n, ast.Call) and isinstance(n.func, ast.Attribute) and n.func.attr == 'subcache']
     if not subs:
         R.undecided('R16.3', 'cached.decorated', 'sub-cache selection not recognised', where=where(fdec))
-    for s in subs:
-        t = None
-        if s.args:
-            t = A.sym.local_term(fdec, ('inst', A.cls('cached')), s.args[0].id) if isinstance(s.args[0], ast.Name) else A.sym.expr_term(s.args[0], Ctx(fdec, ('inst', A.cls('cached'))))
-        while t is not None and t[0] == 'cond' and any(b[0] == 'opaque' and 'unbound' in b[1] for b in (t[2], t[3])):
-            t = t[3] if (t[2][0] == 'opaque') else t[2]
+    at3 = A.sym.terms_at(fdec, recv16, [s_.args[0] for s_ in subs if s_.args])
+    for s_ in subs:
+        ts = at3.get(id(s_.args[0]), []) if s_.args else []
         name = ('attr', ('p', 'method'), '__name__')
         ver = ('attr', ('self',), 'version')
         good = ('cond', ('cmp', 'Is', ver, ('lit', None)), name, ('cat', (name, ('lit', '.'), ver)))
-        R.check(t == good, 'R16.3', 'cached.decorated: sub-cache name', key_of('subcache', pretty(t)[:120] if t else None), 'method.__name__ [+ "." + version]',
-                f'sub-cache name is `{pretty(t)[:160] if t else None}`: different methods or versions can share entries', where=where(fdec, s))
+        ok3 = bool(ts) and all(t == good for t in ts)
+        shown = pretty(ts[0])[:160] if ts else None
+        R.check(ok3, 'R16.3', 'cached.decorated: sub-cache name', key_of('subcache', shown), 'method.__name__ [+ "." + version]',
+                f'sub-cache name is `{shown}`: different methods or versions can share entries', where=where(fdec, s_))
 
     # ---- R16.4
     R.rule('R16.4', 'only_cache only looks up; force_cache reaches force=; store_cache_value replaces the call of the method', floor=3)
@@ -175,18 +182,21 @@ def run(A, R: Report, thorough: bool):
     gocs = [n for n in A.typer.own_nodes(fdec) if isinstance(n, ast.Call) and isinstance(n.func, ast.Attribute) and n.func.attr == 'get_or_compute']
     R.check(bool(gocs) and all(any(kw.arg == 'force' and src(kw.value) == 'force_cache' for kw in c.keywords) or (len(c.args) >= 3 and src(c.args[2]) == 'force_cache') for c in gocs), 'R16.4', 'cached.decorated: force_cache',
             key_of('force_cache'), 'force=force_cache', 'force_cache is not passed to the cache: a forced call returns the stored value', where=where(fdec))
-    lambdas = [n for n in A.typer.own_nodes(fdec) if isinstance(n, ast.Assign) and isinstance(n.value, ast.Lambda)]
-    ok_l = False
-    for n in lambdas:
-        for cn in cfg_nodes_for(cfg, n):
-            facts = [(src(a), pol) for a, pol in cfg.facts_at(cn.id)]
-            calls_method = any(isinstance(x, ast.Call) and src(x.func) == 'method' for x in ast.walk(n.value))
-            stored = any(('store_cache_value is NO_VALUE' in t and not pol) or ('store_cache_value is not NO_VALUE' in t and pol) for t, pol in facts)
-            if stored:
-                ok_l = not calls_method and src(n.value.body) == 'store_cache_value'
-            compute = any(('store_cache_value is NO_VALUE' in t and pol) for t, pol in facts)
-            if compute and not calls_method:
-                ok_l = False
+    gfun = A.cls('FileCache').lookup('get_or_compute')
+    comp_args = [(bound_args(c, gfun) or {}).get(gfun.params[2]) for c in gocs]
+    at4 = A.sym.terms_at(fdec, recv16, [c for c in comp_args if c is not None])
+    scv = ('p', 'store_cache_value')
+    is_unset = ('cmp', 'Is', scv, ('global', 'NO_VALUE'))
+    ok_l = bool(comp_args) and all(c is not None for c in comp_args)
+    for c in comp_args:
+        ts = at4.get(id(c), []) if c is not None else []
+        ok_l = ok_l and bool(ts)
+        for t in ts:
+            dec = lambda x: True if x == is_unset else (False if x == ('cmp', 'IsNot', scv, ('global', 'NO_VALUE')) else None)
+            neg = lambda x: False if x == is_unset else (True if x == ('cmp', 'IsNot', scv, ('global', 'NO_VALUE')) else None)
+            compute, stored = assume(t, dec), assume(t, neg)
+            calls_method = compute[0] == 'lam' and any(x[0] == 'call' and x[1] == 'apply' and x[2] and x[2][0] == ('p', 'method') for x in dag_nodes(compute[2]))
+            ok_l = ok_l and calls_method and stored == ('lam', (), scv)
     R.check(ok_l, 'R16.4', 'cached.decorated: store_cache_value', key_of('store_value'), 'supplied value is stored without calling the method', 'store_cache_value does not replace the call of the method', where=where(fdec))
 
     # ---- R16.5
